@@ -349,4 +349,148 @@ theorem fill_eq_split (rest : Bytes) (h : tildesOk rest = true) :
       simp only [List.reverse_cons, List.reverse_nil, List.nil_append]
       rw [map_prependHead [c] [c] _ (splitSlash_ne_nil _ _) (fun s => by simpa using unescape_cons_ne c s hc)]
 
+/-! ## tokens of a NUL-free pointer are NUL free -/
+
+theorem mem_replace2 (x y : Nat) (s : Bytes) (b : Nat) (h : b ∈ replace2 x y s) : b ∈ s ∨ b = y := by
+  fun_induction replace2 x y s with
+  | case1 => simp at h
+  | case2 c => left; exact h
+  | case3 a c rest hc ih =>
+    simp only [List.mem_cons] at h ⊢
+    rcases h with h | h
+    · right; exact h
+    · rcases ih h with h' | h'
+      · left; right; right; exact h'
+      · right; exact h'
+  | case4 a c rest hc ih =>
+    simp only [List.mem_cons] at h ⊢
+    rcases h with h | h
+    · left; left; exact h
+    · rcases ih h with h' | h'
+      · simp only [List.mem_cons] at h'
+        left; right; exact h'
+      · right; exact h'
+
+theorem mem_splitSlash (rest acc seg : Bytes) (h : seg ∈ splitSlash rest acc) : ∀ b ∈ seg, b ∈ rest ∨ b ∈ acc := by
+  fun_induction splitSlash rest acc with
+  | case1 acc =>
+    simp only [List.mem_singleton] at h; subst h
+    intro b hb; right; simpa using hb
+  | case2 rest acc ih =>
+    simp only [List.mem_cons] at h
+    rcases h with h | h
+    · subst h; intro b hb; right; simpa using hb
+    · intro b hb
+      rcases ih h b hb with h' | h'
+      · left; simp [h']
+      · simp at h'
+  | case3 c rest acc hc ih =>
+    intro b hb
+    rcases ih h b hb with h' | h'
+    · left; simp [h']
+    · simp only [List.mem_cons] at h'
+      rcases h' with h' | h'
+      · left; simp [h']
+      · right; exact h'
+
+theorem rfcSegments_no_nul (p : Bytes) (toks : List Bytes) (hn : ∀ b ∈ p, b ≠ 0) (h : rfcSegments p = some toks) :
+    ∀ seg ∈ toks, ∀ b ∈ seg, b ≠ 0 := by
+  unfold rfcSegments at h
+  split at h
+  · simp only [Option.some.injEq] at h; subst h; simp
+  · rename_i rest
+    simp only [Option.some.injEq] at h; subst h
+    intro seg hseg b hb
+    simp only [List.mem_map] at hseg
+    obtain ⟨raw, hraw, rfl⟩ := hseg
+    have hr := mem_splitSlash rest [] raw hraw
+    simp only [unescape] at hb
+    rcases mem_replace2 _ _ _ _ hb with h1 | h1
+    · rcases mem_replace2 _ _ _ _ h1 with h2 | h2
+      · rcases hr b h2 with h3 | h3
+        · exact hn b (by simp [h3])
+        · simp at h3
+      · omega
+    · omega
+  · simp at h
+
+/-! ## the designated element is itself a well-formed, small document -/
+
+theorem wfMembers_lookup (seen : List Bytes) (ms : List (Bytes × JVal)) (k : Bytes) (c : JVal)
+    (hw : wfMembers seen ms = true) (h : lookupKey k ms = some c) : wf c = true := by
+  induction ms generalizing seen with
+  | nil => simp [lookupKey] at h
+  | cons m ms ih =>
+    obtain ⟨k', v⟩ := m
+    simp only [wfMembers, Bool.and_eq_true] at hw
+    simp only [lookupKey] at h
+    split at h
+    · simp only [Option.some.injEq] at h; subst h; exact hw.1.2
+    · exact ih (k' :: seen) hw.2 h
+
+theorem encMembers_lookup (seen : List Bytes) (ms : List (Bytes × JVal)) (k : Bytes) (c : JVal) (body : Bytes)
+    (he : encMembers seen ms = some body) (h : lookupKey k ms = some c) :
+    ∃ a, enc c = some a ∧ a.length ≤ body.length := by
+  induction ms generalizing seen body with
+  | nil => simp [lookupKey] at h
+  | cons m ms ih =>
+    obtain ⟨k', v⟩ := m
+    unfold encMembers at he
+    split at he
+    · simp at he
+    · rename_i a ha
+      split at he
+      · simp at he
+      · split at he
+        · simp at he
+        · rename_i b hb
+          simp only [Option.some.injEq] at he; subst he
+          simp only [lookupKey] at h
+          split at h
+          · simp only [Option.some.injEq] at h; subst h
+            exact ⟨a, ha, by simp; omega⟩
+          · obtain ⟨a', ha', hl⟩ := ih (k' :: seen) b hb h
+            exact ⟨a', ha', by simp; omega⟩
+
+theorem rfcStep_sub (v c : JVal) (k : Bytes) (bs : Bytes) (hw : wf v = true) (he : enc v = some bs)
+    (h : rfcStep v k = some c) : wf c = true ∧ ∃ a, enc c = some a ∧ a.length ≤ bs.length := by
+  cases v with
+  | arr xs =>
+    simp only [wf] at hw
+    simp only [rfcStep] at h
+    split at h
+    · rename_i i _
+      simp only [enc, Option.map_eq_some_iff] at he
+      obtain ⟨body, hb, rfl⟩ := he
+      obtain ⟨a, ha, hl⟩ := encList_getElem xs i c body hb h
+      have := container_length BINN_LIST xs.length body
+      exact ⟨wfList_getElem xs i c hw h, a, ha, by omega⟩
+    · simp at h
+  | obj ms =>
+    simp only [wf] at hw
+    simp only [rfcStep] at h
+    simp only [enc, Option.map_eq_some_iff] at he
+    obtain ⟨body, hb, rfl⟩ := he
+    obtain ⟨a, ha, hl⟩ := encMembers_lookup [] ms k c body hb h
+    have := container_length BINN_OBJECT ms.length body
+    exact ⟨wfMembers_lookup [] ms k c hw h, a, ha, by omega⟩
+  | null => simp [rfcStep] at h
+  | bool _ => simp [rfcStep] at h
+  | int _ => simp [rfcStep] at h
+  | f64 _ => simp [rfcStep] at h
+  | str _ => simp [rfcStep] at h
+
+theorem rfcGet_sub (v r : JVal) (jp : List Bytes) (bs : Bytes) (hw : wf v = true) (he : enc v = some bs)
+    (h : rfcGet v jp = some r) : wf r = true ∧ ∃ a, enc r = some a ∧ a.length ≤ bs.length := by
+  induction jp generalizing v bs with
+  | nil => simp only [rfcGet, Option.some.injEq] at h; subst h; exact ⟨hw, bs, he, Nat.le_refl _⟩
+  | cons k ks ih =>
+    simp only [rfcGet] at h
+    split at h
+    · rename_i c hc
+      obtain ⟨hwc, a, ha, hl⟩ := rfcStep_sub v c k bs hw he hc
+      obtain ⟨hwr, a', ha', hl'⟩ := ih c a hwc ha h
+      exact ⟨hwr, a', ha', by omega⟩
+    · simp at h
+
 end IwModel.Ptr
